@@ -1299,12 +1299,57 @@ OPS["random"] = Op("random", gen_random, _random_build, lambda ns, p: np.zeros(_
 OPS["random"].needs_spec = True
 
 
+def _negative_twin(name, inputs, params):
+    """the same request with its non-negative axis arguments written as negative ones (NumPy semantics), or None"""
+    if not inputs:
+        return None
+    nd = len(inputs[0]["shape"])
+    if nd == 0:
+        return None
+
+    def neg(v, n):
+        if isinstance(v, bool) or v is None:
+            return None
+        if isinstance(v, int):
+            return v - n if 0 <= v < n else None
+        if isinstance(v, (list, tuple)) and v and all(isinstance(x, int) and not isinstance(x, bool) and 0 <= x < n for x in v):
+            return [x - n for x in v]
+        return None
+
+    q = dict(params)
+    changed = False
+    if name == "tensordot" and isinstance(params.get("axes"), (list, tuple)) and len(params["axes"]) == 2 and len(inputs) == 2:
+        a = neg(list(params["axes"][0]), nd) if isinstance(params["axes"][0], (list, tuple)) else None
+        b = neg(list(params["axes"][1]), len(inputs[1]["shape"])) if isinstance(params["axes"][1], (list, tuple)) else None
+        if a is not None and b is not None:
+            q["axes"] = [a, b]
+            changed = True
+    else:
+        for k in ("axis", "axes", "src", "dst"):
+            if k in params and name not in ("stack", "expand_dims", "map_blocks", "asarray_dtype", "sources"):
+                v = neg(params[k], nd)
+                if v is not None:
+                    q[k] = v
+                    changed = True
+    return q if changed else None
+
+
 def cases(tier, ops=None):
+    per = 3 if tier == "quick" else 12
     for name, op in OPS.items():
         if ops and name not in ops:
             continue
+        twins = {}
         for inputs, params in op.gen(tier):
             yield dict(op=name, inputs=inputs, params=params)
+            # negative-axis twins: the first few multi-block cases of every (operation, variant, axis value)
+            if any(n > c for i in inputs for n, c in zip(i["shape"], i["chunks"])):
+                q = _negative_twin(name, inputs, params)
+                if q is not None:
+                    key = json.dumps([params.get("fn"), params.get("axis"), params.get("axes"), params.get("src"), params.get("dst"), params.get("keepdims")], default=str)
+                    if twins.get(key, 0) < per:
+                        twins[key] = twins.get(key, 0) + 1
+                        yield dict(op=name, inputs=inputs, params=q)
 
 
 CATALOGUED_NAMES = None
